@@ -267,6 +267,9 @@ func region(addr int) string {
 
 func body(k *cuworld.Kernel, g cuworld.Geometry, o cuworld.TimingOpts) explore.Body {
 	want := expected(k.Name, k, g)
+	if strings.HasPrefix(k.Name, "k13_") || strings.HasPrefix(k.Name, "k15_") {
+		o.NoReadAttribution = true // every wavefront of these kernels reads the same input lines
+	}
 	return func(x *explore.Exec) *explore.Violation {
 		r := cuworld.RunTiming(x, k, g, o)
 		if r.Panic != "" {
@@ -316,6 +319,9 @@ func main() {
 		r = harness.StartPart(partOf, "cu", "model_checking")
 	} else {
 		r = harness.Start("C14", "model_checking")
+	}
+	if r.Replay != "" {
+		r.Tier = "thorough" // a replay file may name a scenario of either tier
 	}
 	ks := cuworld.LoadKernels(harness.Dir())
 	names := []string{"k1_lds_barrier", "k2_global_barrier", "k3_two_barriers", "k4_waitcnt_vm", "k5_waitcnt_lgkm", "k6_early_exit_before_barrier", "k7_late_exit_without_barrier", "k8_store_then_endpgm", "k9_exit_with_pending_store_while_others_wait", "k10_many_scalar_loads", "k11_many_stores", "k12_register_signature_survives_neighbour_exit", "k13_gather_sparse_then_dense_line", "k14_unawaited_scalar_load_into_wg_id_register", "k15_uncoalesced_64_lines_per_load"}
